@@ -120,6 +120,21 @@ CLAIMED = {
          'the bound; every history is replayed on a fresh real StepRegistry/StepMatcherFactory through real step modules (load_step_modules), all lookups are '
          'made with real Step objects and the matches run against recording functions; TLC judges spans, values, names, dispatch, ambiguity and '
          'same-definition rows.'},
+    'C14': {'design_ref': 'DESIGN.md §7 C14',
+ 'note': 'Numbers only, never wording; the unused class SummaryReporterV2 is recorded but not judged (not the end-of-run summary).',
+ 'technique': 'TLA+ spec (Summary.tla) model-checked with TLC + TLC-judged report projections of real runs',
+ 'text': 'Summary.tla transcribes the SummaryReporter tree walk with the exact key sets of its four tables (a missing key is an explicit CRASH), the '
+         'failing/errored lists, the five line formats and the SummaryCollector; TLC proves count = census, sum = population, format agreement and no-crash on '
+         'every small model with arbitrary final statuses (steps over all 11 statuses); real runs of the shared plan (stop/abort remainders, hook errors, '
+         'de-selection, dry-run, outlines, rules) are run with the summary on, each of the five formats is produced by a fresh reporter on the real post-run '
+         'model, parsed with one regex per format, and TLC computes the census from the recorded final statuses and judges.'},
+    'C17': {'design_ref': 'DESIGN.md §7 C17',
+ 'note': 'C17.exact not judged under dry-run nor for runs that died with an escaping exception; run order = document order.',
+ 'technique': 'TLA+ spec (Rerun.tla) model-checked with TLC + TLC-judged rerun files / second-run selections of real runs',
+ 'text': 'Rerun.tla transcribes the rerun formatter automaton (feature/eof/close, stale-file deletion) and the feed-back selection; TLC proves exact / '
+         'stale_removed / loop on every run-shaped small model; three kinds of real rows are judged: real runs of the shared plan with the rerun formatter, '
+         "the same runs with a planted stale file followed by the real collect_feature_locations(['@rerun.txt']) + parse_features + a second real run, and "
+         'TLC-emitted models rendered to real feature files with statuses set on the real objects.'},
 }
 
 PENDING_REASON = "check not built yet in this round (planned with the same TLA+/TLC technique, see DESIGN.md §7); not claimed until its check exists"
